@@ -94,10 +94,22 @@ def push_level(ctx, rng, n):
     in every backup mode and thread count"""
     from props import l3common, l3gen, ws
     bad = done = 0
-    for _ in range(n):
-        w = l3gen.gen_workspace(rng, fail_prob=0.15)
-        cfg = l3common.rand_cfg(rng, threads=(1, 1, 2, 4))
-        lo, hi = rng.choice([(0, 1), (0, 2), (0, 3), (1, 2), (1, 3), (2, 5)])
+    body = b"".join(b"l%d\n" % i for i in range(1, 10))
+    need1 = {"files": {b"f": (body, 0o644)}, "dirs": [], "applied": None, "series": b"p.patch\n",
+             "patches": {b"p.patch": b"--- a/f\n+++ b/f\n@@ -3,5 +3,5 @@\n WRONG\n l4\n-l5\n+L5\n l6\n l7\n"}}
+    need2 = {"files": {b"f": (body, 0o644)}, "dirs": [], "applied": None, "series": b"p.patch\n",
+             "patches": {b"p.patch": b"--- a/f\n+++ b/f\n@@ -2,7 +2,7 @@\n WRONG\n WRONG\n l4\n-l5\n+L5\n l6\n WRONG\n WRONG\n"}}
+    fixed = [(need1, 1, 2), (need1, 1, 255), (need1, 1, 256), (need1, 2, 1000), (need1, 1, 65536), (need2, 2, 3), (need2, 2, 256),
+             (need2, 3, 4294967296)]
+    for k in range(n + len(fixed)):
+        if k < len(fixed):
+            w, lo, hi = fixed[k]
+            cfg = l3gen.default_cfg()
+            cfg["threads"] = 1 + k % 2
+        else:
+            w = l3gen.gen_workspace(rng, fail_prob=0.15)
+            cfg = l3common.rand_cfg(rng, threads=(1, 1, 2, 4))
+            lo, hi = rng.choice([(0, 1), (0, 2), (0, 3), (1, 2), (1, 3), (2, 5), (0, 256), (2, 300), (1, 70000)])
         c1 = dict(cfg); c1["fuzz"] = lo
         c2 = dict(cfg); c2["fuzz"] = hi
         r1, out1, _ = l3gen.run_real(ctx.binary, w, c1)
